@@ -233,7 +233,7 @@ def shapedN (refs : Bool) (d : Draft) : Nat → Json → Bool
           (match v with | .num m => decide (0 < val m) | _ => false)
         else if k = ks "minLength" ∨ k = ks "maxLength" ∨ k = ks "minItems" ∨ k = ks "maxItems" then isNonNegInt d v
         else if (k = ks "minProperties" ∨ k = ks "maxProperties") ∧ since4 then isNonNegInt d v
-        else if k = ks "pattern" then isStrJ v
+        else if k = ks "pattern" ∨ k = ks "format" then isStrJ v
         else if k = ks "items" then
           (match v with
            | .arr ss => ss.all sub
@@ -264,6 +264,44 @@ def shapedN (refs : Bool) (d : Draft) : Nat → Json → Bool
            | _ => false)
         else true
     | _ => false
+
+/-- every `multipleOf`/`divisibleBy` value anywhere in the schema is an integer in `1 … 2^53`
+    (so that its conversion to binary64 is exact: the exact sub-domain of C09 for which the
+    verdict does not depend on floating-point rounding, whatever the instance) -/
+def numSafe : Json → Bool
+  | .arr xs => numSafeList xs
+  | .obj kvs => numSafeKvs kvs
+  | _ => true
+where
+  numSafeList : List Json → Bool
+    | [] => true
+    | x :: xs => numSafe x && numSafeList xs
+  numSafeKvs : List (Str × Json) → Bool
+    | [] => true
+    | (k, v) :: rest =>
+      (if k = ks "multipleOf" ∨ k = ks "divisibleBy" then
+         (match v with | .num (.int m) => decide (0 < m ∧ m ≤ 2 ^ 53) | _ => false)
+       else true) && numSafe v && numSafeKvs rest
+
+/-- (draft 3) every type name under `type`/`disallow`, at any depth, is one the draft defines;
+    unknown names raise the documented `UnknownType` instead of giving a verdict -/
+def typesKnown (d : Draft) : Json → Bool
+  | .arr xs => typesKnownList d xs
+  | .obj kvs => typesKnownKvs d kvs
+  | _ => true
+where
+  typesKnownList (d : Draft) : List Json → Bool
+    | [] => true
+    | x :: xs => typesKnown d x && typesKnownList d xs
+  typesKnownKvs (d : Draft) : List (Str × Json) → Bool
+    | [] => true
+    | (k, v) :: rest =>
+      (if k = ks "type" ∨ k = ks "disallow" then
+         (match v with
+          | .str t => (typeNames d).contains t
+          | .arr ts => ts.all (fun t => match t with | .str t => (typeNames d).contains t | _ => true)
+          | _ => true)
+       else true) && typesKnown d v && typesKnownKvs d rest
 
 /-- reference-free and well shaped (the domain of C01) -/
 def shaped (d : Draft) (s : Json) : Bool := shapedN false d (s.size + 1) s
